@@ -45,7 +45,7 @@ def ensure_model(domains):
 
 
 ALL_DOMAINS = ["Card", "Logic", "Comb", "Text", "Out", "Cont", "Design", "Layout", "Decode", "Compile", "Check", "Random",
-               "Front", "Hist", "Derive", "SM", "Iterate", "DocSem"]
+               "Front", "Hist", "Derive", "SM", "Iterate", "DocSem", "T2"]
 
 
 def setup():
